@@ -87,7 +87,9 @@ class GGen:
                 alts[0] = [alts[0][0], None]
                 alts[0][0][0][0] = None
         g = ["grp", alts]
-        if self.p(0.5):
+        if self.p(0.5) and '"ref"' not in __import__("json").dumps(g):
+            # only reference-free groups are shared between rules: a reused reference could become a
+            # left-recursive call in a position the design's well-formedness rules exclude
             self.shared_groups.append(g)
         if n_alts == 1:
             self.feats.add("single-alt-group")
